@@ -1,4 +1,6 @@
 import J5V.Schema.CodecEmpty
+import J5V.Schema.CodecRoundtrip
+import J5V.Codec.ScalarProofs
 import J5V.Schema.Export
 import J5V.Generated.SchemaFacts
 /-!
@@ -497,6 +499,74 @@ theorem C18_empty_message_oneof (ds : DescSet) (hl : linked ds = true) (reg : Re
     Codec.encodeBytes (Bridge.toEnv ds reg) O (Bridge.rootName e.pkg e.key) (.msg []) = .ok (Json.ascii "{}") ∧
     Codec.decodeBytes c (Bridge.rootName e.pkg e.key) (Json.ascii "{}") = .ok [] :=
   Bridge.reflected_empty_message_oneof ds hl reg h e he p k ps hto O c hc
+
+/-! ### C18 → C01: the codec round trip on reflected schemas
+
+The codec clause of the property — "the codec can encode and decode an empty and a populated
+message of every reflected type" — beyond the empty message: for a descriptor set the reader
+accepts and whose reflected environment lies in the codec cluster's `Env.flat`, **every**
+representable message of **every** reflected root round-trips through the codec
+(`C01_roundtrip_partial` = `Codec.roundtrip_bytes`, instantiated at `toEnv ds reg`; `toEnv` is tied
+to the real structures by the `env=` part of the `schema.reflect` correspondence).
+`_partial`: `Env.flat` of the reflected environment is a hypothesis (decidable, evaluated on the
+witness below); a reflected set with a flatten name clash (open finding
+`duplicate-client-property-name`) or a flattened leaf that is an array / map of arrays is outside it.
+That `flat` follows from `clientNamesOK` for every reflected set is not proved. -/
+theorem C18_reflected_roundtrip_partial (ds : DescSet) (reg : Reg) (h : schemaSetFromFiles ds = .ok reg)
+    (c : Codec.Cfg) (hc : c.env = Bridge.toEnv ds reg) (hflat : (Bridge.toEnv ds reg).flat = true)
+    (L : Codec.OracleLaws c.O) (hC : (Bridge.toEnv ds reg).noAny = true ∨ Codec.ChunkLaws c.O)
+    (root : String) (m : Codec.Fields)
+    (hok : Codec.valOk (Bridge.toEnv ds reg) c.O (.object root) (.msg m) = true ∨
+      Codec.valOk (Bridge.toEnv ds reg) c.O (.oneof root) (.msg m) = true)
+    (hM : c.canDecode m) :
+    ∃ bs, Codec.encodeBytes (Bridge.toEnv ds reg) c.O root (.msg m) = .ok bs ∧
+      Codec.decodeBytes c root bs = .ok m :=
+  Bridge.reflected_roundtrip ds reg h c hc hflat L hC root m hok hM
+
+/-- … and when no `Any` field is reflected nothing is asked of the codec configuration: every
+codec over the reflected environment (with or without `WithProtoToAny`) round-trips every
+representable message -/
+theorem C18_reflected_roundtrip_noAny_partial (ds : DescSet) (reg : Reg)
+    (h : schemaSetFromFiles ds = .ok reg) (c : Codec.Cfg) (hc : c.env = Bridge.toEnv ds reg)
+    (hflat : (Bridge.toEnv ds reg).flat = true) (hna : (Bridge.toEnv ds reg).noAny = true)
+    (L : Codec.OracleLaws c.O) (root : String) (m : Codec.Fields)
+    (hok : Codec.valOk (Bridge.toEnv ds reg) c.O (.object root) (.msg m) = true ∨
+      Codec.valOk (Bridge.toEnv ds reg) c.O (.oneof root) (.msg m) = true) :
+    ∃ bs, Codec.encodeBytes (Bridge.toEnv ds reg) c.O root (.msg m) = .ok bs ∧
+      Codec.decodeBytes c root bs = .ok m :=
+  Bridge.reflected_roundtrip_noAny ds reg h c hc hflat hna L root m hok
+
+/-- the reflected environment of `flattenChain` (two levels of flattening), computed by the fuel
+version of `toEnv` -/
+def flattenChainEnv : Codec.Env := (Bridge.toEnvN 10 flattenChain flattenChainReg).getD ⟨[], []⟩
+
+theorem flattenChain_env : Bridge.toEnv flattenChain flattenChainReg = flattenChainEnv := by
+  apply Bridge.toEnvN_sound 10
+  have h : (Bridge.toEnvN 10 flattenChain flattenChainReg).isSome = true := by decide +kernel
+  unfold flattenChainEnv
+  cases hh : Bridge.toEnvN 10 flattenChain flattenChainReg with
+  | none => rw [hh] at h; cases h
+  | some e => rfl
+
+/-- `A{ b: B{ y: "hi", c: C{ z: 5 } }, x: "q" }` -/
+def flattenChainMsg : Codec.Fields :=
+  [(1, .msg [(1, .str (Json.ascii "hi")), (2, .msg [(1, .int 5)])]), (2, .str (Json.ascii "q"))]
+
+/-- non-vacuity of `C18_reflected_roundtrip_partial`: the reflected environment of `flattenChain`
+is flat and has no `Any`, and the populated message above is representable … -/
+example : flattenChainEnv.flat = true ∧ flattenChainEnv.noAny = true ∧
+    Codec.valOk flattenChainEnv Codec.toyOracle (.object "fl.v1.A") (.msg flattenChainMsg) = true := by
+  decide +kernel
+
+/-- … so the theorem applies: the populated message of `A` (flattened through `B` and `C`) is
+encoded, and decoded back to itself, by every codec over the reflected schema -/
+example (c : Codec.Cfg) (hc : c.env = Bridge.toEnv flattenChain flattenChainReg) (hO : c.O = Codec.toyOracle) :
+    ∃ bs, Codec.encodeBytes (Bridge.toEnv flattenChain flattenChainReg) c.O "fl.v1.A" (.msg flattenChainMsg) = .ok bs ∧
+      Codec.decodeBytes c "fl.v1.A" bs = .ok flattenChainMsg := by
+  refine C18_reflected_roundtrip_noAny_partial _ _ flattenChain_reflects c hc ?_ ?_ (hO ▸ Codec.toyOracle_laws) _ _ ?_
+  · rw [flattenChain_env]; decide +kernel
+  · rw [flattenChain_env]; decide +kernel
+  · left; rw [flattenChain_env, hO]; decide +kernel
 
 /-! ## Non-vacuity -/
 
